@@ -14,7 +14,10 @@
 (***************************************************************************)
 EXTENDS Annotate, Json, IOUtils, SequencesExt
 
-Obs == JsonDeserialize(IOEnv.TRACE_FILE)
+\* The observations come in NSlices files TRACE_FILE.<k>; every slice is one initial state and is judged by one
+\* step, so that several TLC workers share one JVM (one start-up, one JIT warm-up); the verdict on slice k goes to
+\* VERDICT_FILE.<k>.  (The batch idiom A.2 with the batch cut into slices.)
+NSlices   == atoi(IOEnv.C01_SLICES)
 WithDrift == IOEnv.C01_DRIFT = "1"
 
 SetOut(o) == [o EXCEPT !.attrs = SeqSet(@)]
@@ -47,28 +50,29 @@ DriftOf(r) ==
 Describe(p) == "v" \o ToString(p[1] - 1) \o ":" \o p[2]
 
 \* ---- verdict ------------------------------------------------------------------------------------------
-VARIABLE done_
+VARIABLE slice
 TraceCases == {}
 \* one pass per observation: the (value, clause) pairs on which the statement speaks, the failing ones, drift
-Judge(k) ==
-  LET r  == Rec(Obs[k])
-      sp == IF Obs[k].crashed THEN {} ELSE Speaking(r)
+Judge(ob) ==
+  LET r  == Rec(ob)
+      sp == IF ob.crashed THEN {} ELSE Speaking(r)
       fl == {p \in sp : ~Cons(p[2], r, p[1])}
-      dr == IF WithDrift /\ ~Obs[k].crashed THEN DriftOf(r) ELSE {}
+      dr == IF WithDrift /\ ~ob.crashed THEN DriftOf(r) ELSE {}
   IN [spoke |-> {p[2] : p \in sp},
-      nspoke |-> [name \in ClauseNames |-> Cardinality({p \in sp : p[2] = name})],
-      rejected |-> (IF Obs[k].crashed THEN {<<Obs[k].id, "Crash", "v0:crash">>} ELSE {})
-                   \cup {<<Obs[k].id, p[2], "v" \o ToString(p[1] - 1) \o ":" \o Deviation(p[2], r.case, p[1])>> : p \in fl}
-                   \cup (IF dr = {} THEN {} ELSE {<<Obs[k].id, "DRIFT", Describe(CHOOSE p \in dr : TRUE)>>})]
+      rejected |-> (IF ob.crashed THEN {<<ob.id, "Crash", "v0:crash:crash">>} ELSE {})
+                   \cup {<<ob.id, p[2], "v" \o ToString(p[1] - 1) \o ":" \o Deviation(p[2], r.case, p[1]) \o ":" \o How(p[2], r, p[1])>> : p \in fl}
+                   \cup (IF dr = {} THEN {} ELSE {<<ob.id, "DRIFT", Describe(CHOOSE p \in dr : TRUE)>>})]
 
+\* (operator arguments are evaluated once and kept, LET definitions are not)
+Verdict(obs, js) == [n |-> Len(obs),
+                     rejected |-> SetToSeq(UNION {js[k].rejected : k \in 1..Len(obs)}),
+                     exercised |-> [name \in ClauseNames |-> Cardinality({k \in 1..Len(obs) : name \in js[k].spoke})]]
+JudgeAll(obs)    == Verdict(obs, Eager([k \in 1..Len(obs) |-> Judge(obs[k])], Len(obs)))
 
-TInit == case = 0 /\ phase = "validate" /\ bad = {} /\ done_ = FALSE
-TNext == /\ ~done_
-         /\ done_' = TRUE
-         /\ UNCHANGED <<case, phase, bad>>
-         /\ LET js == Eager([k \in 1..Len(Obs) |-> Judge(k)], Len(Obs))
-            IN JsonSerialize(IOEnv.VERDICT_FILE,
-                             [n |-> Len(Obs),
-                              rejected |-> SetToSeq(UNION {js[k].rejected : k \in 1..Len(Obs)}),
-                              exercised |-> [name \in ClauseNames |-> Cardinality({k \in 1..Len(Obs) : name \in js[k].spoke})]])
+TInit == case = 0 /\ phase = "validate" /\ bad = {} /\ slice \in 1..NSlices
+TNext == /\ phase = "validate"
+         /\ phase' = "judged"
+         /\ UNCHANGED <<case, bad, slice>>
+         /\ JsonSerialize(IOEnv.VERDICT_FILE \o "." \o ToString(slice),
+                          JudgeAll(JsonDeserialize(IOEnv.TRACE_FILE \o "." \o ToString(slice))))
 =============================================================================
